@@ -50,6 +50,7 @@ type Contract struct {
 	Reveal    []string
 	Lets      map[string]ast.Expr
 	Assumes   []*Clause // trusted postconditions: assumed at call sites, never proved, listed in the evidence
+	Defines   []*Clause // conservative definitions of otherwise uninterpreted predicates: assumed at entry of the function
 }
 
 type Lemma struct {
@@ -337,6 +338,11 @@ func (e *Engine) parseContractFile(file, pkg string) error {
 				return fmt.Errorf("%s: clause outside a func block", where)
 			}
 			addClause(&cur.Ensures, "ensures")
+		case "defines":
+			if cur == nil {
+				return fmt.Errorf("%s: clause outside a func block", where)
+			}
+			addClause(&cur.Defines, "defines")
 		case "assumes":
 			if cur == nil {
 				return fmt.Errorf("%s: clause outside a func block", where)
@@ -794,6 +800,9 @@ func (c *specCtx) ident(name string) TV {
 		if tv, ok := c.pkgObject(c.fe.fn.Pkg.Pkg, name); ok {
 			return tv
 		}
+	}
+	if strings.HasPrefix(name, "TAG_") || strings.HasPrefix(name, "K_") {
+		return TV{Term{name, SInt}, types.Typ[types.Int]}
 	}
 	// spec constant
 	if sig, ok := c.fe.eng.specs.sigs[name]; ok && len(sig.Params) == 0 && sig.Result != "" && len(sig.Heap) == 0 {
@@ -1396,14 +1405,29 @@ func (c *specCtx) singleIndexedBase(body ast.Expr, name string) ast.Expr {
 		})
 		return found
 	}
+	// direct: the variable occurs in the index through arithmetic only (not nested in another index or call)
+	var direct func(e ast.Expr) bool
+	direct = func(e ast.Expr) bool {
+		switch y := e.(type) {
+		case *ast.Ident:
+			return y.Name == name
+		case *ast.BinaryExpr:
+			return direct(y.X) || direct(y.Y)
+		case *ast.ParenExpr:
+			return direct(y.X)
+		case *ast.UnaryExpr:
+			return direct(y.X)
+		}
+		return false
+	}
 	ast.Inspect(body, func(n ast.Node) bool {
 		switch x := n.(type) {
 		case *ast.IndexExpr:
-			if mentions(x.Index) {
+			if direct(x.Index) {
 				bases = append(bases, x.X)
 			}
 		case *ast.CallExpr:
-			if id, ok := x.Fun.(*ast.Ident); ok && id.Name == "elem" && len(x.Args) == 2 && mentions(x.Args[1]) {
+			if id, ok := x.Fun.(*ast.Ident); ok && id.Name == "elem" && len(x.Args) == 2 && direct(x.Args[1]) {
 				bases = append(bases, x.Args[0])
 			}
 			if id, ok := x.Fun.(*ast.Ident); ok && (id.Name == "forall" || id.Name == "exists") && len(x.Args) > 0 {
@@ -1417,37 +1441,78 @@ func (c *specCtx) singleIndexedBase(body ast.Expr, name string) ast.Expr {
 	if len(bases) == 0 {
 		return nil
 	}
-	// the bound variable must occur nowhere else (e.g. as an index into the event log): otherwise the relative form
-	// gives the better triggers
-	total, inIndex := 0, 0
-	ast.Inspect(body, func(n ast.Node) bool {
-		if id, ok := n.(*ast.Ident); ok && id.Name == name {
-			total++
+	// The bound variable may also occur in plain comparisons / arithmetic, but not as an index into anything else or as an
+	// argument of a spec function (e.g. an index into the event log): there the relative form gives the better triggers.
+	baseTxt := c.fe.eng.exprString(bases[0])
+	blocked := false
+	var walk func(n ast.Node, inArg bool)
+	walk = func(n ast.Node, inArg bool) {
+		if n == nil || blocked {
+			return
 		}
-		return true
-	})
-	ast.Inspect(body, func(n ast.Node) bool {
 		switch x := n.(type) {
-		case *ast.IndexExpr:
-			ast.Inspect(x.Index, func(m ast.Node) bool {
-				if id, ok := m.(*ast.Ident); ok && id.Name == name {
-					inIndex++
-				}
-				return true
-			})
-		case *ast.CallExpr:
-			if id, ok := x.Fun.(*ast.Ident); ok && id.Name == "elem" && len(x.Args) == 2 {
-				ast.Inspect(x.Args[1], func(m ast.Node) bool {
-					if id, ok := m.(*ast.Ident); ok && id.Name == name {
-						inIndex++
-					}
-					return true
-				})
+		case *ast.Ident:
+			if x.Name == name && inArg {
+				blocked = true
 			}
+		case *ast.IndexExpr:
+			walk(x.X, inArg)
+			if c.fe.eng.exprString(x.X) == baseTxt {
+				walk(x.Index, false)
+			} else {
+				walk(x.Index, true)
+			}
+		case *ast.CallExpr:
+			fn := ""
+			if id, ok := x.Fun.(*ast.Ident); ok {
+				fn = id.Name
+			}
+			switch fn {
+			case "forall", "exists":
+				if len(x.Args) == 4 {
+					walk(x.Args[1], inArg)
+					walk(x.Args[2], inArg)
+					walk(x.Args[3], inArg)
+				} else {
+					for _, a := range x.Args[1:] {
+						walk(a, inArg)
+					}
+				}
+			case "implies", "iff", "ite", "old", "now":
+				for _, a := range x.Args {
+					walk(a, inArg)
+				}
+			case "elem":
+				if len(x.Args) == 2 && c.fe.eng.exprString(x.Args[0]) == baseTxt {
+					walk(x.Args[0], inArg)
+					walk(x.Args[1], false)
+				} else {
+					for _, a := range x.Args {
+						walk(a, true)
+					}
+				}
+			default:
+				for _, a := range x.Args {
+					walk(a, true)
+				}
+			}
+		case *ast.BinaryExpr:
+			walk(x.X, inArg)
+			walk(x.Y, inArg)
+		case *ast.UnaryExpr:
+			walk(x.X, inArg)
+		case *ast.ParenExpr:
+			walk(x.X, inArg)
+		case *ast.SelectorExpr:
+			walk(x.X, inArg)
+		case *ast.TypeAssertExpr:
+			walk(x.X, inArg)
+		case *ast.StarExpr:
+			walk(x.X, inArg)
 		}
-		return true
-	})
-	if total != inIndex {
+	}
+	walk(body, false)
+	if blocked {
 		return nil
 	}
 	txt := c.fe.eng.exprString(bases[0])
